@@ -68,10 +68,13 @@ func runC13(r *Run) {
 		var best *branch
 		for _, br := range branchesIn(h) {
 			br := br
+			if br.If.Parent() != lr[0].Instr.Parent() {
+				continue // dominance is a per-function notion: helpers' branches cannot guard this call
+			}
 			for s := 0; s < 2; s++ {
 				tgt := br.If.Block().Succs[s]
-				if tgt.Dominates(lr[0].Block()) && len(tgt.Preds) == 1 {
-					if best == nil || best.If.Block().Dominates(br.If.Block()) {
+				if dom(tgt, lr[0].Block()) && len(tgt.Preds) == 1 {
+					if best == nil || dom(best.If.Block(), br.If.Block()) {
 						best = &br
 					}
 				}
@@ -113,7 +116,7 @@ func runC13(r *Run) {
 			br, lr := rejectBranch(h)
 			var rejSlot int
 			for s := 0; s < 2; s++ {
-				if br.If.Block().Succs[s].Dominates(lr.Block()) {
+				if dom(br.If.Block().Succs[s], lr.Block()) {
 					rejSlot = s
 				}
 			}
@@ -214,7 +217,7 @@ func runC13(r *Run) {
 			r.need(len(gets) >= 1 && len(sets) >= 1, name+" get/set")
 			first := gets[0]
 			for _, c := range gets {
-				if c.Block().Dominates(first.Block()) && c.Block() != first.Block() {
+				if dom(c.Block(), first.Block()) && c.Block() != first.Block() {
 					first = c
 				}
 			}
@@ -252,7 +255,7 @@ func runC13(r *Run) {
 				okDom := false
 				if ld != nil {
 					li := ld.(ssa.Instruction)
-					okDom = incr.Block().Dominates(li.Block()) && (incr.Block() != li.Block() || idxIn(incr) < idxIn(li))
+					okDom = dom(incr.Block(), li.Block()) && (incr.Block() != li.Block() || idxIn(incr) < idxIn(li))
 				}
 				r.check(okDom, name+":reject-reads-post-increment", r.pos(br.If), "the counter read for the rejection is dominated by the increment", "the rejection compares a counter value read before the increment (one extra request per window)")
 			}
